@@ -25,6 +25,15 @@ theorem sasl_required_safe (cfg : Cfg) (base s : St) (hr : cfg.required = true) 
   have ha := (absInv_req cfg).reach r hr h
   ⟨ha, ((absInv_sasl cfg).reach r).2.2.2 ha⟩
 
+/-- The same along every history of the real SocketDriver: `SocketDriver(irc)`, then any number of `run()`s
+with arbitrary clock values, due / not-due scheduled reconnects and recv() chunks of any server lines. -/
+theorem sasl_required_safe_real (cfg : Cfg) (base s : St) (hr : cfg.required = true) (hd : cfg.realDriver = true)
+    (r : DReach cfg base s) :
+    (pastNegotiation s.fsm = true ∨ s.afterConnect = true ∨ 0 < s.endCount) →
+      s.saslAuth = true ∧ s.saslAcked = true := fun h =>
+  have ha := (absInv_req cfg).dreach hd r hr h
+  ⟨ha, ((absInv_sasl cfg).dreach hd r).2.2.2 ha⟩
+
 /-- `sasl_authenticated` is raised only by the handler of 903, and only when the FSM was in INIT_SASL /
 CONNECTED_SASL when the 903 arrived: a 903 outside a SASL exchange (unsolicited, before CAP LS, after the
 exchange ended …) is not honoured — for every state, configuration and message. -/
@@ -245,6 +254,12 @@ theorem sts_stored_policy_applied (cfg : Cfg) (policy : Str) (s : St) (port dur 
 
 /-- the connected server keeps the configured spelling of the host name -/
 theorem connectTo_host (cfg : Cfg) (srv : Server) (s : St) : (connectTo cfg srv s).drv.current.host = srv.host := rfl
+
+/-- a real-driver history ending in CONNECTED with required SASL: non-vacuity of `sasl_required_safe_real` -/
+def exRealReq : Cfg := { exReq with realDriver := true, servers := [⟨"h".toList, 6667, none, false⟩] }
+def exRd : St := drvRun exRealReq 1 false [exLs, exAck, exAuth, ex903] (drvStart exRealReq (initSt exRealReq {}))
+theorem exRd_reach : DReach exRealReq {} exRd := .run 1 false _ .start
+example : pastNegotiation exRd.fsm = true ∧ exRd.saslAuth = true ∧ exRealReq.required = true := by decide
 
 def exStored : St := { db := { policies := [("h".toList, "port=6697,duration=1000".toList)] }, now := 5000 }
 example : (applyStsPolicy exStored ⟨"h".toList, 6667, none, false⟩).map (·.1) = some ⟨"h".toList, 6697, none, true⟩ := by decide
